@@ -4,6 +4,7 @@
 -/
 import Phil
 import Phil.Heap
+import Phil.IndexPaths
 open Phil
 
 def tokErrJ : TokErr → J
@@ -44,9 +45,13 @@ def envsOfJ (ej fj : J) : Option Envs :=
   | some e, some f => some { eval := e, fmt := f }
   | _, _ => none
 
-def opOfJ (j : J) : Option (Index.Op PVal Str) :=
+def opOfJ (j : J) : Option (Index.Op PVal (Str × Option Str)) :=
   match j with
-  | .arr [.str "update", t] => t.getStr.map Index.Op.update
+  | .arr [.str "update", t] => t.getStr.map (fun s => Index.Op.update (s, none))
+  | .arr [.str "update", t, sc] =>                    -- update(text, only_scope=sc) / merge_phil(…, only_scope=sc)
+    (match t.getStr, sc.getStr with
+     | some s, some o => some (Index.Op.update (s, some o))
+     | _, _ => none)
   | .arr [.str "from_python"] => some (.updateFromPython none)
   | .arr [.str "from_python", v] => (PVal.ofJ v).map (fun p => .updateFromPython (some p))
   | .arr [.str "push"] => some .push
@@ -71,6 +76,16 @@ def heapOfJ (g : List J) : Option Heap.Heap :=
 def graphJ (h : Heap.Heap) : J :=
   .arr ((Heap.graph h).map fun g =>
     .arr [.bool g.isScope, J.text g.name, J.optNat g.parent, .arr (g.kids.map fun k => J.num (Int.ofNat k))])
+
+/-- the path index on the wire: `[path, kind, count, positions]` per key, keys in code-point order;
+    `unsupported` when the Python would have raised while building it (`PEntry.stray`) -/
+def pathIndexJ (ix : PathIndex) : J :=
+  if ix.hasStray then .arr [.str "unsupported", .str "index-append-on-object"] else
+  let rows := ix.map (fun kv => (String.ofList kv.1, kv))
+  let sorted := rows.mergeSort (fun a b => !(b.1 < a.1))
+  .arr (sorted.map (fun r =>
+    .arr [J.text r.2.1, .str r.2.2.kind, .num r.2.2.positions.length,
+          .arr (r.2.2.positions.map (fun (n : Nat) => J.num (Int.ofNat n)))]))
 
 def handle (req : J) : J :=
   match req with
@@ -197,17 +212,19 @@ def handle (req : J) : J :=
            | .error e => e.toJ
            | .ok (w0, _) =>
              let ctx : IndexCtx := { envs := envs, master := m, multiple := multiplePaths 1000 [] w0.children }
-             let k := concreteKernel ctx
-             let s0 := Index.init k w0.children
-             let obs (s : Index.State (List Obj) PVal) (g : Option PVal) : J :=
+             let k := concreteKernelScoped ctx
+             let s0 := iinit k w0.children
+             let obs (si : IState) (g : Option PVal) : J :=
+               let s := si.base
                .arr [(match showObj {} (rootOf s.working) [] [] with | .ok ls => J.text (unlines ls) | .error e => e.toJ),
                      .bool s.params.isSome, .bool s.dirty, .num s.states.length,
-                     (match g with | some v => .arr [.str "got", v.toJ] | none => .null)]
-             let (_, outs) := opsj.foldl (fun (acc : Index.State (List Obj) PVal × List J) oj =>
+                     (match g with | some v => .arr [.str "got", v.toJ] | none => .null),
+                     pathIndexJ si.pathIndex]
+             let (_, outs) := opsj.foldl (fun (acc : IState × List J) oj =>
                match opOfJ oj with
                | none => (acc.1, acc.2 ++ [.str "bad-op"])
                | some op =>
-                 let (s', g) := Index.step k acc.1 op
+                 let (s', g) := istep k acc.1 op
                  (s', acc.2 ++ [obs s' g])) (s0, [obs s0 none])
              okJ (.arr outs)))
      | _, _, _ => .str "bad-request")
